@@ -1,6 +1,7 @@
 import TakVerif.Props.C17
 import TakVerif.Props.C17_legal
 import TakVerif.Props.C04_pv
+import TakVerif.Props.C01
 
 /-! # C17: the `bestmove` of a TEI engine whose thinker is the alpha-beta model
 
@@ -109,5 +110,41 @@ theorem tei_bestmove_legal_minimax_table (env : Env) (hC : Collaborators env)
     refine ⟨m, rest, rfl, hmem, hok, hshape, Tak.Proofs.legalShape_not_pass hshape,
       (Tak.Proofs.isNormal_iff m).2 (Tak.Proofs.legalShape_normal hshape), ?_, hs'⟩
     exact tei_one_bestmove_at env hC pre post args st p a hpre htold hargs m rest (by rw [hsearch, hr])
+
+/-! ### non-vacuity: a session with an environment whose searcher *is* the alpha-beta model -/
+
+namespace ExMM
+def basis : Array W := Array.replicate 64 0#64
+def g : Game Pos Move := takGame basis evalMat
+def cfg : Search.Cfg := { depth := 2, opts := { noSort := true } }
+/-- every `go` is answered by `Search.analyze` on a new engine (depth 2, material evaluator) -/
+def env : Env :=
+  { basis := basis
+    parseMove := fun _ => .error (.illegal "x")
+    parseTPS := fun _ => .error (.illegal "x")
+    fmtMove := fun m => s!"{m.x},{m.y}"
+    search := fun _ p _ =>
+      match analyze g cfg Oracle.quiet p (Eng.new g cfg) with
+      | .ok ((pv, v, st), _) => { depth := st.depth, elapsedMs := 0, nodes := st.evaluated, val := v, pv := pv }
+      | .error _ => { depth := 0, elapsedMs := 0, nodes := 0, val := 0, pv := [] } }
+def pre : List (List String) := [["teinewgame", "3"], ["position", "startpos"]]
+end ExMM
+
+/-- the history is carried out and tells the live 3×3 start position; the model's PV there has two moves, the first a
+generated and accepted one; `Run` answers `go` with the info line and `bestmove a1` (printed as coordinates) -/
+example : (stateAfter ExMM.env 0 {} ExMM.pre).isSome = true ∧
+    (posTold ExMM.env ExMM.pre.reverse).map (fun p => (p.gameOver.1, (ExMM.env.search 2 p none).pv.length,
+      (ExMM.env.search 2 p none).pv.head?.map (fun m => (decide (m ∈ p.allMoves), (p.apply ExMM.basis m).isOk))))
+      = some (false, 2, some (true, true)) ∧
+    (run ExMM.env (ExMM.pre ++ [["go"]])).1.map (·.out)
+      = [[], [], ["info depth 2 time 0 nodes 25 score cp 0 pv 0,0 0,1", "bestmove 0,0"]] := by
+  decide +kernel
+
+/-- … and the told position is well-formed (it is `tak.New`'s), the new engine's state is `EngOK` -/
+example (p : Pos) (h : Pos.new { size := 3, pieces := 0, capstones := 0, blackWinsTies := false } = .ok p) :
+    WF ExMM.basis p ∧
+    EngOK ExMM.g (C04.FromGen ExMM.g C04.SizeOK) (fun _ => False) (Eng.new ExMM.g ExMM.cfg) ∧
+    (Eng.new ExMM.g ExMM.cfg).hasTable = false :=
+  ⟨C01.new_wf ExMM.basis _ p h, C04.engOK_new_fromGen ExMM.g _ _ ExMM.cfg, rfl⟩
 
 end C17
